@@ -326,7 +326,7 @@ def replay0(rec):
             res.append(('C11.b:tpos', 'ok' if not trows else 'mismatch', 'fixed horizon but rows on T: %s' % [r['vals'] for r in trows]))
     if 'scales' in pred:
         bad = []
-        for kind, key in (('x', 'x'), ('u', 'u'), ('v', 'v')):
+        for kind, key in (('x', 'x'), ('u', 'u'), ('v', 'v'), ('x', 'xi'), ('x', 'xr'), ('z', 'zr')):
             for i, sc_ in enumerate(pred['scales'][kind]):
                 for (k_, i_, c_), loc in o.ing.items():
                     if k_ == key and i_ == i and loc is not None and not close(loc[1], sc_):
